@@ -283,18 +283,17 @@ class Point(object):
 
         """
 
-        # If the attribute value is not None, then simply return it.
-        # Otherwise, compute it and return it.
-        if self._value is None:
-            # If leaf, the PEP would have filled the attribute after solving the problem.
-            if self._is_leaf:
+        # If leaf, the PEP would have filled the attribute after solving the problem.
+        if self._is_leaf:
+            if self._value is None:
                 raise ValueError("The PEP must be solved to evaluate Points!")
-            # If linear combination, combine the values of the leaf, and store the result before returning it.
-            else:
-                value = np.zeros(Point.counter)
-                for point, weight in self.decomposition_dict.items():
-                    value += weight * point.eval()
-                self._value = value
+        # If linear combination, combine the values of the leaf (they change at each solve: never reuse an old result),
+        # and store the result before returning it.
+        else:
+            value = np.zeros(Point.counter)
+            for point, weight in self.decomposition_dict.items():
+                value += weight * point.eval()
+            self._value = value
 
         return self._value
 
